@@ -395,3 +395,95 @@ func c02ClientCompletion(x *X) {
 func init() {
 	register(&Scenario{Prop: "C02", Name: "c02/client-completion", Quick: []Bound{{0, 0}, {1, 0}}, Thorough: []Bound{{2, 0}}, Body: c02ClientCompletion, BudgetQ: 15, MinHB: 1})
 }
+
+// Call objects that are used again (RoundTrip takes a caller-owned Call) and share one Done
+// channel with other calls: in every round each call that is issued is signalled exactly once on
+// that channel, also when one call's completion is already waiting in the channel while the other
+// call is issued again.
+func c02ReusedSharedDone(x *X) {
+	pipelined := x.Choose(2) == 1
+	gap := x.Choose(2) == 1 // the first completion of a round is in the channel before the second call is issued
+	f := newFixture(srvOpts{bufSize: 64}, cliOpts{bufSize: 64, pipelining: pipelined})
+	done := make(chan *rpc.Call, 8)
+	type slot struct {
+		call  *rpc.Call
+		args  []byte
+		reply []byte
+	}
+	mk := func() *slot { s := &slot{}; s.call = &rpc.Call{ServiceMethod: "Svc.Echo", Done: done}; return s }
+	a, b := mk(), mk()
+	for round := 0; round < 3; round++ {
+		for i, s := range []*slot{a, b} {
+			s.args = mkPayload(byte(0x10*(round+1)+i), 0, 12+round+i)
+			s.reply = nil
+			s.call.Args, s.call.Reply, s.call.Error = &s.args, &s.reply, nil
+			f.conn.RoundTrip(s.call)
+			if gap {
+				vs.Quiesce()
+			}
+		}
+		vs.Quiesce()
+		got := map[*rpc.Call]int{}
+		for len(done) > 0 {
+			got[<-done]++
+		}
+		for i, s := range []*slot{a, b} {
+			if got[s.call] != 1 {
+				x.Fail(fmt.Sprintf("C02/done-signals=%d/reused-shared-done", got[s.call]), "round %d: call object %d (used for its round trip number %d, sharing its Done channel with another call object) was signalled %d times (client pipelining %v, the first completion already in the channel when the second call was issued: %v)", round, i, round+1, got[s.call], pipelined, gap)
+			} else if s.call.Error != nil || !eqBytes(s.reply, transform(s.args)) {
+				x.Fail("C02/wrong-result/reused-shared-done", "round %d call %d: err=%v", round, i, s.call.Error)
+			}
+		}
+	}
+	x.Outcome("pipelined=%v gap=%v", pipelined, gap)
+	f.conn.Close()
+	vs.Quiesce()
+}
+
+// one Call object used for a sequence of Transport.RoundTrips across the life of a server: success,
+// the connection is lost (ErrShutdown), the server is unreachable (ErrDial, completed by the
+// Transport itself), the server is back (success): each round trip signals the call exactly once.
+func c02TransportReusedCall(x *X) {
+	lim := [][2]int{{1, 1}, {2, 2}}[x.Choose(2)]
+	t := newTrSys(x, "C02", lim[0], lim[1])
+	done := make(chan *rpc.Call, 4)
+	call := &rpc.Call{ServiceMethod: "Svc.Echo", Done: done}
+	step := func(label string, wantOK bool) {
+		args := mkPayload(t.tag(), 0, 16)
+		var reply []byte
+		call.Args, call.Reply, call.Error = &args, &reply, nil
+		ret := false
+		vs.GoNamed("caller", func() { t.tr.RoundTrip("a", call); ret = true })
+		vs.Quiesce()
+		n := len(done)
+		for len(done) > 0 {
+			<-done
+		}
+		switch {
+		case !ret:
+			x.Fail("C02/roundtrip-hangs/transport-reused-call", "%s: Transport.RoundTrip did not return", label)
+		case n != 1:
+			x.Fail(fmt.Sprintf("C02/done-signals=%d/transport-reused-call", n), "%s: the reused Call was signalled %d times (Error %v)", label, n, call.Error)
+		case wantOK && (call.Error != nil || !eqBytes(reply, transform(args))):
+			x.Fail("C02/wrong-result/transport-reused-call", "%s: err=%v", label, call.Error)
+		case !wantOK && call.Error == nil:
+			x.Fail("C02/wrong-result/transport-reused-call", "%s: the call succeeded although the server is gone", label)
+		}
+		t.log = append(t.log, label+"="+errStr(call.Error))
+	}
+	step("server up", true)
+	step("server up again", true)
+	t.kill("a")
+	step("connection lost", false)
+	step("server unreachable", false)
+	step("server unreachable again", false)
+	t.restart("a")
+	step("server back", true)
+	x.Outcome("lim=%v %v", lim, t.log)
+	t.shutdown()
+}
+
+func init() {
+	register(&Scenario{Prop: "C02", Name: "c02/reused-calls-sharing-a-done-channel", Quick: []Bound{{0, 0}, {1, 0}}, Thorough: []Bound{{2, 0}}, Body: c02ReusedSharedDone, BudgetQ: 15})
+	register(&Scenario{Prop: "C02", Name: "c02/transport-reused-call", Quick: []Bound{{0, 0}, {1, 0}}, Thorough: []Bound{{2, 0}}, Body: c02TransportReusedCall, MaxSteps: 200000, BudgetQ: 15})
+}
